@@ -18,7 +18,9 @@ EXTENDS RVProject, RVLinks
 
 (* w = [p |-> RVProject state, t |-> [module id -> its four link lists], vol |-> [module id -> value], strict |-> BOOLEAN] *)
 NoLinks == [inl |-> <<>>, ins |-> <<>>, outl |-> <<>>, outs |-> <<>>]
-InitW(nm, np) == [p |-> InitState(nm, np), t |-> [m \in 1..nm |-> NoLinks], vol |-> [m \in 1..nm |-> 256], strict |-> TRUE]
+(* module id nm is a MultiCtl; map[i] is the controller number named by its i-th mapping (0 = none, 1 = the volume)      *)
+InitW(nm, np) == [p |-> InitState(nm, np), t |-> [m \in 1..nm |-> NoLinks], vol |-> [m \in 1..nm |-> 256], strict |-> TRUE,
+                  map |-> [i \in 1..4 |-> 0]]
 ResW(o, ws, r) == [outcome |-> o, posts |-> ws, ret |-> r]
 Lift(w, r) == ResW(r.outcome, {[w EXCEPT !.p = q] : q \in r.posts}, r.ret)
 
@@ -63,6 +65,20 @@ SysBulk(w, q, n, fail, sparse) ==
   ELSE ResW("ok", {[w EXCEPT !.p.nmod[q] = n]}, 0)
 (* Module.clone(): a free copy (through serialization) of module src, bound to the free id dst: same controller value, no links *)
 SysClone(w, src, dst) == ResW("ok", {[w EXCEPT !.vol[dst] = w.vol[src], !.t[dst] = NoLinks]}, 0)
+
+(* ---- MultiCtl (RVMultiCtl composed with the link tables): mapping i belongs to the MultiCtl's i-th OUT slot.          *)
+SysSetMap(w, i, c) == ResW("ok", {[w EXCEPT !.map[i] = c]}, 0)
+(* the targets a feed reaches: [slot |-> i, mod |-> module id] for every live out slot whose mapping names a controller;  *)
+(* a freed slot (-1) is no link and reaches nobody                                                                        *)
+FeedTargets(w, mc) ==
+  LET P == w.p.parent[mc] IN
+  IF P = 0 THEN {} ELSE
+  {[slot |-> i, mod |-> w.p.slots[P][w.t[mc].outl[i] + 1]] :
+      i \in {k \in 1..Len(w.t[mc].outl) : k <= 4 /\ w.t[mc].outl[k] >= 0 /\ w.map[k] = 1}}
+(* feeding the extreme inputs through the default window / gain / curve delivers the target range's end points *)
+SysFeed(w, mc, v) ==
+  LET tg == {x.mod : x \in FeedTargets(w, mc)} IN
+  ResW("ok", {[w EXCEPT !.vol = [m \in DOMAIN w.vol |-> IF m \in tg THEN (IF v = 0 THEN 0 ELSE 1024) ELSE w.vol[m]]]}, 0)
 
 SysCoherent(w) ==
   /\ Coherent(w.p)
